@@ -13,6 +13,11 @@ In addition every consistent on-disk state a kill can leave (all 2^n bitmaps,
 marked chunks present, optionally one chunk written but not yet marked) is
 built with the real Sidecar API and resumed by a real transfer: identical
 tree, and no marked chunk below the verification point is framed again.
+At the application level (driver e2e-resume) a real `thru join` process is
+SIGKILLed at a hook point in mid-transfer; a second real join into the same
+directory answers the resume / overwrite prompt and must end with exit 0 and
+the identical tree (the real host keeps serving); the receiver processes'
+own hook traces are validated with TLC against SessionTrace.tla.
 """
 import vlib
 import resume_common as rc
@@ -31,11 +36,27 @@ def run(tier, seed):
             v.violation(viol['sig'], viol.get('replay'))
     import e2e_common
     e2e_common.report_rules(v, PROP, res['trace_rules'])
+    # the application level: a real `thru join` is killed in mid-transfer, a second real join into the same
+    # directory answers the resume / overwrite prompt; identical tree required; both joins' traces validated
+    import os
+    work = vlib.scratch("c04e2e-")
+    srv = vlib.build_repo_bin('./cmd/thruserv', 'thruserv')
+    thru = vlib.build_repo_bin('./cmd/thru', 'thru')
+    tp = os.path.join(work, "resumetrace")
+    er = vlib.run_vh_sharded(['e2e-resume', '-n', '6' if tier == "quick" else '36', '-seed', str(seed), '-thruserv', srv, '-thru', thru, '-trace-out', tp], 6, timeout=1800)
+    for viol in er['violations']:
+        sig = dict(viol['sig'])
+        if sig.pop('prop', None) == PROP:
+            v.violation(sig, viol.get('replay'))
+    lines = e2e_common.collect(tp)
+    erules, estats = e2e_common.validate(lines, work, "resume-sessions") if lines else ([], None)
+    e2e_common.report_rules(v, PROP, erules)
     v.coverage = dict(evaluations=res['steps'], distinct_nontrivial=res['distinct'], child_hook_traces_validated_by_tlc=res['trace_stats'],
                       rule="interrupted run + resumed run per kill plan (evaluations counts process runs); non-trivial = the first run really died at the kill point",
                       samples=res['samples'][:4] + st['samples'][:3], outcomes=res['extra'].get('outcomes'),
                       consistent_states=dict(resumed=st['behaviours'], partial_bitmaps=st['distinct'], outcomes=st['extra'].get('outcomes')), plans_total=res['extra'].get('plans_total'),
                       skipped_over_budget=res['extra'].get('skipped_over_budget'),
+                      real_binary_sessions=dict(sessions=er['behaviours'], first_run_killed=er['distinct'], outcomes=er['extra'].get('outcomes'), trace_lines_validated=estats),
                       tlc=dict(states=mc['states'], transitions=mc['transitions'], runs=mc['runs']))
     v.assumptions = ["receiver killed by SIGKILL; sender kept healthy and restarted for the resumed run (sender kills / connection drops are exercised by C02's fault positions followed by C06's resumed runs)",
                      "workloads: 1 file x 4 chunks, 3 files (3+3+0 chunks), 1 file x 8 chunks; 64-byte chunks; 1 and 2 streams; verification tail 0 and 1"]
